@@ -78,14 +78,28 @@ def store_check(prop, model_cfgs, gen_cfgs, quick_n, thorough_n, kinds_note, inv
         thorough = res.tier == "thorough"
         rng = random.Random(V.seed())
         rb = V.replay_behaviours()
-        mcs = []
-        for cfg in model_cfgs:
-            mcs.append(V.model_check("Store.tla", cfg if not thorough else cfg.replace(".cfg", "T.cfg") if os.path.exists(os.path.join(V.SPECS, cfg.replace(".cfg", "T.cfg"))) else cfg, sc, timeout=2400, heap="12g"))
+        def pick(cfg):
+            tcfg = cfg.replace(".cfg", "T.cfg")
+            return tcfg if thorough and os.path.exists(os.path.join(V.SPECS, tcfg)) else cfg
         behs, gstats = [], []
         reg = load_regress(prop)
+        jobs = [("mc", pick(c)) for c in model_cfgs] + ([("gen", c) for c in gen_cfgs] if rb is None else [])
+        nw = max(2, 16 // max(1, len(jobs)))
+
+        def run(job):
+            kind, cfg = job
+            if kind == "mc":
+                return V.model_check("Store.tla", cfg, sc, timeout=3000, heap="10g", workers=nw)
+            return V.export_cases("Store.tla", cfg, sc, timeout=3000, heap="8g", workers=nw)
+
+        with cf.ThreadPoolExecutor(max_workers=len(jobs)) as ex:
+            results = list(ex.map(run, jobs))
+        mcs = [r for (k, _), r in zip(jobs, results) if k == "mc"]
         if rb is None:
-            for cfg in gen_cfgs:
-                cases, gst = V.export_cases("Store.tla", cfg, sc, timeout=1800, heap="8g")
+            for (k, cfg), r in zip(jobs, results):
+                if k != "gen":
+                    continue
+                cases, gst = r
                 paths = V.drop_prefixes([[c["kind"]] + c["ops"] for c in cases])
                 bs = [dict(kind=p[0], ops=p[1:]) for p in paths]
                 if filt:
